@@ -43,11 +43,17 @@ func (r *BatchedTokenRequest) Unmarshal(data []byte) bool {
 	}
 
 	l, offset := quicwire.ConsumeVarint(data)
+	if offset < 0 || l > uint64(len(data)-offset) {
+		return false
+	}
 
 	r.token_requests = make([]tokens.TokenRequestWithDetails, 0)
 	i := offset
 	for i < offset+int(l) {
 		var token_request tokens.TokenRequestWithDetails
+		if i+2 > len(data) {
+			return false
+		}
 		token_type := binary.BigEndian.Uint16(data[i : i+2])
 		switch token_type {
 		case type1.BasicPrivateTokenType:
